@@ -41,6 +41,12 @@ def run(R, ctx):
     R.rule('R07.8', 'the writer is switched to the new file before cleanup runs (shared with R01.4)')
     import c01 as _c01
     _c01.swap_rules(Relabel(R, {'R01.4': 'R07.8'}), ctx)
+    # cleanup walks the listing in descending NAME order and takes that for newest-first: a rotated file must never get a name that sorts
+    # before an older one.  With timestamp naming that is the collision test (a second file of the same second gets the next
+    # .restart number, also when only restart siblings are left); decided by the collision table (shared with R06.4)
+    R.rule('R07.9', 'names of rotated files sort in the order of rotation: collision table (shared with R06.4)')
+    import c06 as _c06
+    _c06.collision_table(Relabel(R, {'R06.4': 'R07.9'}), ctx)
 
 def ord_rel(row, a, b):
     """relation of a to b recorded in the row for the ordering atom of names a, b (None if not examined)"""
